@@ -297,7 +297,7 @@ func (w *World) effectsPass(fn *ssa.Function, blocks map[*ssa.BasicBlock]bool, e
 				if e.merge(ce) {
 					ch = true
 				}
-				if fc := w.contracts[funcKey(callee)]; fc != nil && len(fc.Ensures)+len(fc.Requires) > 0 {
+				if fc := w.contracts[funcKey(callee)]; fc != nil && fc.assumable()+len(fc.Requires) > 0 {
 					if !e.events {
 						e.events, ch = true, true
 					}
@@ -508,7 +508,7 @@ func (w *World) eventKindsIn(fn *ssa.Function, blocks map[*ssa.BasicBlock]bool, 
 			}
 			fc := w.contracts[funcKey(callee)]
 			forceInline := (fc != nil && fc.Flags["inline"]) || callee.Parent() != nil
-			if (fc != nil && (len(fc.Ensures)+len(fc.Requires) > 0) && !fc.Flags["inline"]) || (w.isRecursive(callee) && !forceInline) || w.isModular(callee) {
+			if (fc != nil && (fc.assumable()+len(fc.Requires) > 0) && !fc.Flags["inline"]) || (w.isRecursive(callee) && !forceInline) || w.isModular(callee) {
 				out[callee.Name()] = true
 				continue
 			}
